@@ -46,19 +46,104 @@ type viol struct {
 
 type seqStats struct {
 	ops, accepted, rejected, selections, complete, entries, dels, gcResets, expiredMoves, maxAppended, partialAdds int64
-	boxAccepted, absentBoxDeletes                                                                                  int64
+	orphanStates, boxAccepted, absentBoxDeletes                                                                    int64
 }
 
 const orphanSuffix = ":orphaned-by-box-delete"
+
+// shadow mirrors the pool's slice + hash index bookkeeping as written in tx_pool.go. It never decides a
+// verdict: it only names the mechanism of a violation the oracle has found. "orphaned" means that at some
+// point since the pool last reset its storage a pending entry (or the sub-tx link of a pending box) had no
+// index entry pointing at it any more -- the state the deletion of a box (DelTxs or expiry) leaves behind
+// when the sub-tx index entries it removes belong to other entries.
+type shadow struct {
+	u        *Universe
+	slots    []int
+	index    map[int]int
+	orphaned bool
+}
+
+func newShadow(u *Universe) *shadow { return &shadow{u: u, index: map[int]int{}} }
+
+func (p *shadow) add(id int) {
+	if _, ok := p.index[id]; ok {
+		return
+	}
+	for _, s := range p.u.Specs[id].Subs {
+		if _, ok := p.index[s]; ok {
+			return
+		}
+	}
+	p.slots = append(p.slots, id)
+	p.index[id] = len(p.slots) - 1
+	for _, s := range p.u.Specs[id].Subs {
+		p.index[s] = len(p.slots) - 1
+	}
+}
+
+func (p *shadow) delOne(id int) {
+	if i, ok := p.index[id]; ok {
+		p.slots[i] = -1
+		delete(p.index, id)
+	}
+	for _, s := range p.u.Specs[id].Subs {
+		delete(p.index, s)
+	}
+}
+
+func (p *shadow) del(ids []int) {
+	for _, id := range ids {
+		p.delOne(id)
+	}
+	p.scan()
+	if len(p.index) == 0 {
+		p.slots = nil
+		p.orphaned = false
+	}
+}
+
+func (p *shadow) get(time uint32, size int) {
+	n := 0
+	for _, id := range p.slots {
+		if id < 0 {
+			continue
+		}
+		if p.u.EffExp[id] < uint64(time) {
+			p.delOne(id)
+			continue
+		}
+		if n++; n >= size {
+			break
+		}
+	}
+	p.scan()
+}
+
+func (p *shadow) scan() {
+	for i, id := range p.slots {
+		if id < 0 {
+			continue
+		}
+		if j, ok := p.index[id]; !ok || j != i {
+			p.orphaned = true
+		}
+		for _, s := range p.u.Specs[id].Subs {
+			if j, ok := p.index[s]; !ok || j != i {
+				p.orphaned = true
+			}
+		}
+	}
+}
 
 // execSeq runs ops on a fresh pool in lock-step with the model and returns the first violation.
 func execSeq(u *Universe, ops []SeqOp, st *seqStats) *viol {
 	pool := txpool.NewTxPool()
 	var s mstate
-	var deleted, ever, taint uint64
+	var deleted, ever uint64
 	appended := int64(0)
+	sh := newShadow(u)
 	cls := func(base string, involved uint64) string {
-		if involved&taint != 0 {
+		if sh.orphaned {
 			return "C18/" + base + orphanSuffix
 		}
 		return "C18/" + base
@@ -68,6 +153,7 @@ func execSeq(u *Universe, ops []SeqOp, st *seqStats) *viol {
 		switch op.Op {
 		case "add":
 			id := op.IDs[0]
+			sh.add(id)
 			if err := pool.AddTx(u.Txs[id]); err == nil {
 				s = s.addOK(id)
 				deleted &^= bit(id)
@@ -81,6 +167,9 @@ func execSeq(u *Universe, ops []SeqOp, st *seqStats) *viol {
 				st.rejected++
 			}
 		case "adds":
+			for _, id := range op.IDs {
+				sh.add(id)
+			}
 			n := pool.AddTxs(u.txsOf(op.IDs))
 			appended += int64(n)
 			st.accepted += int64(n)
@@ -107,32 +196,27 @@ func execSeq(u *Universe, ops []SeqOp, st *seqStats) *viol {
 		case "del":
 			st.dels++
 			removed, _ := u.delEffect(op.IDs)
-			live := s.must | s.may
-			// entries whose index the deletion of a listed box touches although they are not that box:
-			// its sub txs pending on their own, and other pending boxes sharing a sub tx with it
 			for _, id := range op.IDs {
-				if u.IsBox(id) {
-					if live&bit(id) == 0 {
-						st.absentBoxDeletes++
-					}
-					taint |= u.subsM[id] & live
-					for _, sub := range idsOf(u.subsM[id]) {
-						taint |= u.boxesM[sub] &^ bit(id) & live
-					}
+				if u.IsBox(id) && (s.must|s.may)&bit(id) == 0 {
+					st.absentBoxDeletes++
 				}
 			}
+			sh.del(op.IDs)
 			s = s.del(u, op.IDs)
 			deleted |= removed
 			pool.DelTxs(u.txsOf(op.IDs))
 			if pool.IsEmpty() {
 				// the pool has reset its storage
-				taint = 0
 				appended = 0
 				st.gcResets++
 			}
 		case "get":
 			st.selections++
 			sel := pool.GetTxs(op.Time, op.Size)
+			sh.get(op.Time, op.Size)
+			if sh.orphaned {
+				st.orphanStates++
+			}
 			ids := u.selIDs(sel)
 			st.entries += int64(len(ids))
 			var selM uint64
